@@ -25,7 +25,7 @@ RULE = (
     "panel, parse_source AST equality and generated-text equality; W5 every thread builds its own revisions of one "
     "experiment name (unique labels per construction); W2 concurrent calls on shared evaluators; W3 one "
     "evaluator toggled between texts A and B by a recompiler while callers evaluate (result must be A(x) or B(x)); W4 "
-    "failing recompiles racing with calls (callers keep seeing A); W6 all of it at once; W7 staggered constructions of a 1500-rung else-if ladder (outcome class compared); W9 (escalation, only when a concurrent run leaves sys.getrecursionlimit() changed): staggered constructions of 1600-rung ladders with the limit reset every round; W8 cold start: fresh interpreters whose first-ever constructions happen in 2..16 threads released together (W3 alternates between a same-name and an other-name revision). distinct_nontrivial = distinct (run, thread, op) "
+    "failing recompiles racing with calls (callers keep seeing A); W6 all of it at once; W7 staggered constructions of a 1500-rung else-if ladder (outcome class compared); W9 (escalation, only when a concurrent run leaves sys.getrecursionlimit() changed): staggered constructions of 1600-rung ladders with the limit reset every round; W10 several threads recompile one evaluator to the same new text at once and then call it (generations separated by barriers); W8 cold start: fresh interpreters whose first-ever constructions happen in 2..16 threads released together (W3 alternates between a same-name and an other-name revision). distinct_nontrivial = distinct (run, thread, op) "
     "results produced by worker threads that were released together by a barrier and ran concurrently (evidence of real "
     "overlap is reported separately: threads simultaneously inside parse_source, cross-thread switches between line events)."
 )
@@ -330,7 +330,9 @@ def run(ctx):
         for run_i in range(nruns):
             nthreads = rnd.choice([2, 4, 8, 16])
             inject = run_i % 2 == 1
-            workload = ["W1", "W5", "W2", "W3", "W4", "W6"][run_i % 6] if run_i % 12 < 6 else rnd.choice(["W1", "W1", "W5", "W5", "W2", "W3", "W3", "W4", "W6"])
+            workload = ["W1", "W5", "W2", "W3", "W4", "W6"][run_i % 6] if run_i % 12 < 6 else rnd.choice(["W1", "W1", "W5", "W5", "W2", "W3", "W3", "W4", "W6", "W10", "W10"])
+            if run_i % 12 == 5 and ctx.shard % 2:
+                workload = "W10"
             if workload == "W6":
                 nthreads = max(nthreads, 4)
             if run_i % 12 == 11:
@@ -466,6 +468,32 @@ def run(ctx):
                                 except Exception as e:  # noqa: BLE001
                                     got = type(e).__name__
                                 logs[ti].append((k, "huge-construction", "chain(1500)", got == want, None if got == want else (got, want)))
+                        return work
+                elif workload == "W10":
+                    # several threads reload ONE evaluator at the same time, all with the same new text (a configuration
+                    # push reaching every worker at once): when a thread's recompile() has returned, that thread's calls see
+                    # the new experiment - as they would sequentially
+                    ev = im.Evaluator(TEXT_A)
+                    gens = [TEXT_B, TEXT_A, TEXT_B2, TEXT_A, TEXT_B][: 3 if ctx.quick() else 5]
+                    gen_barrier = threading.Barrier(nthreads)
+
+                    def make(ti):
+                        def work():
+                            start.wait()
+                            for g, text in enumerate(gens):
+                                try:
+                                    gen_barrier.wait(120)
+                                    ev.recompile(text)
+                                    got = [im.call(ev, e) for e in PANEL]
+                                    ok = got == ref[text]["panel"]
+                                    logs[ti].append((g, "own-recompile-then-call", text, ok, None if ok else (got[:3], ref[text]["panel"][:3])))
+                                    gen_barrier.wait(120)
+                                except threading.BrokenBarrierError:
+                                    return
+                                except Exception as e:  # noqa: BLE001
+                                    errors[ti].append((g, text, type(e).__name__, str(e)[:160]))
+                                    gen_barrier.abort()
+                                    return
                         return work
                 elif workload == "W2":
                     evs = {t: im.Evaluator(t) for t in SOURCES}
